@@ -357,6 +357,39 @@ def stale_derived_attributes(ctx, cls):
                         out.append((x, tg[0], sorted(st & deps)[0], f"{k.name}.{m.name}"))
     return out
 
+
+# ------------------------------------------------------------------ how elements get into a local list, whatever the spelling
+def inclusion_sites(ctx, f, name):
+    """[(node, element expression, atoms)] the ways elements enter the local list / set `name`: the element of a comprehension that
+    defines it (atoms = its `if` conditions), and `name.append(e)` / `name.add(e)` calls (atoms = the conditions that dominate the
+    call inside the function, flags expanded).  The iterated source is in `iter_sources`."""
+    from ..engine import local_defs
+    out = []
+    for d in local_defs(f, name):
+        if isinstance(d, tuple):
+            continue
+        if isinstance(d, (ast.ListComp, ast.SetComp, ast.GeneratorExp)):
+            at = set()
+            for g in d.generators:
+                for c in g.ifs:
+                    at |= atoms_of(c, True)
+            out.append((d, d.elt, at, [g.iter for g in d.generators]))
+        elif isinstance(d, ast.Call) and fn_name(d) in ("list", "set", "sorted", "tuple") and d.args and isinstance(d.args[0], (ast.ListComp, ast.GeneratorExp)):
+            c0 = d.args[0]
+            at = set()
+            for g in c0.generators:
+                for c in g.ifs:
+                    at |= atoms_of(c, True)
+            out.append((d, c0.elt, at, [g.iter for g in c0.generators]))
+    cfg = cfg_of(f)
+    for n in cfg.nodes:
+        for x in cfg.node_walk(n.id):
+            if isinstance(x, ast.Call) and isinstance(x.func, ast.Attribute) and x.func.attr in ("append", "add") and isinstance(x.func.value, ast.Name) \
+                    and x.func.value.id == name and x.args:
+                loops = [l.ast.iter for l in cfg.nodes if l.kind == "for" and any(y is x for st in l.ast.body for y in ast.walk(st))]
+                out.append((x, x.args[0], set(dom_guard(ctx, f, n.id)), loops))
+    return out
+
 # ------------------------------------------------------------------ paths that respect what a branch edge established
 def consistent_with(cond, truth):
     """edge_ok for CFG.path: given that `cond` evaluated to `truth` at the start (e.g. decision == SchedulerDecision.STOP), reject
@@ -910,7 +943,21 @@ def dom_guard(ctx, f, nid):
                 exp |= atoms_of(ds[0], a[2])
                 continue
         exp.add(a)
-    return exp
+    return exp | derived_membership(f, exp)
+
+
+def derived_membership(f, atoms):
+    """`x = d.get(k)` ... `x is not None`  says  `k in d`  (the idiom for a table whose values are never None): the membership
+    atom is added next to the None test, so that a guard can be written either way"""
+    from ..engine import local_defs
+    out = set()
+    for a in atoms:
+        if a[0] == "is" and a[2] == "None" and a[1].isidentifier():
+            ds = [d for d in local_defs(f, a[1]) if not isinstance(d, tuple)]
+            if len(ds) == 1 and isinstance(ds[0], ast.Call) and isinstance(ds[0].func, ast.Attribute) and ds[0].func.attr == "get" and len(ds[0].args) == 1 \
+                    and not ds[0].keywords:
+                out.add(("in", U(ds[0].args[0]), U(ds[0].func.value), not a[3]))
+    return out
 
 
 def call_nodes(ctx, f, pred):
